@@ -416,6 +416,7 @@ struct Runner
         }
         // orthonormality / parallelism between distinct returned vectors
         LD orth = 0, par = 0;
+        std::vector<ll> pidx(kk, 0), rmult(kk, 0);
         for (int i = 0; i < kk; i++)
             for (int j = 0; j < kk; j++)
                 if (i != j)
@@ -424,13 +425,28 @@ struct Runner
                     orth = std::max(orth, v);
                     LD ni = Xl.col(i).norm(), nj = Xl.col(j).norm();
                     if (ni > 0 && nj > 0)
-                        par = std::max(par, std::abs((Xl.col(i).adjoint() * Xl.col(j))(0, 0)) / (ni * nj));
+                    {
+                        LD c = std::abs((Xl.col(i).adjoint() * Xl.col(j))(0, 0)) / (ni * nj);
+                        par = std::max(par, c);
+                        // x_i is a copy of an earlier returned vector x_j (1 - |cos| < 2^-20)
+                        if (j < i && 1.0L - std::min(c, 1.0L) < 9.5e-7L && pidx[i] == 0)
+                            pidx[i] = j + 1;
+                    }
                 }
+        // multiplicity of the matched reference eigenvalue: number of reference values within 2^-20 ||A|| of it
+        if (cx.refspec.size())
+            for (int i = 0; i < kk; i++)
+            {
+                int bi = (int) ridx[i] - 1;
+                for (int j = 0; j < (int) cx.refspec.size(); j++)
+                    if (std::abs(cx.refspec[j] - cx.refspec[bi]) <= 9.5e-7L * (cx.normPA > 0 ? cx.normPA : 1.0L))
+                        rmult[i]++;
+            }
         Line l("MPairs");
         l.arr("qres", qres).arr("qlam", qlam).arr("qnx", qnx).arr("qx2", qx2);
         l.i("qorth", kk > 1 ? q(orth) : QZERO).i("qpar1", kk > 1 ? q(1.0L - std::min(par, 1.0L)) : 0);
         if (cx.refspec.size())
-            l.arr("qdist", qdist).arr("ridx", ridx);
+            l.arr("qdist", qdist).arr("ridx", ridx).arr("pidx", pidx).arr("rmult", rmult);
         l.i("qtol", q((LD) last_tol));
         out().put(l);
         sink.enabled = true;
@@ -600,7 +616,7 @@ struct Runner
         sink.cb = nullptr;
         eigs.reset();
         Line l("End");
-        l.i("live", 0);
+        l.i("ov", g_heap_overruns_ptr ? (ll) *g_heap_overruns_ptr : 0);
         out().put(l);
     }
 };
@@ -615,6 +631,7 @@ inline void reset_line(const Desc& d, const Ctx& cx, int tycode, int herm, ll id
     l.i("qnA", q(cx.normPA)).i("qnB", q(cx.normPB)).i("qnOP", q(cx.normOP)).i("qnIP", q(cx.normIP)).i("qcond", q(cx.condfac));
     l.i("qnS", cx.normS > 0 ? q(cx.normS) : 0);
     l.i("ref", cx.refspec.size() ? 1 : 0);
+    l.i("live", g_heap_live);  // live heap blocks when this run started (leak observation across identical runs)
     l.i("kf", d.i("kf", 0));  // known-finding family marker (fixed descriptors only)
     l.str("desc", d.raw);
     out().put(l);
